@@ -216,29 +216,32 @@ Section Shim.
     | EFail => Ok (HErr, HsFailed, e, s, t, log)
     end.
 
-  (* one poll of the future *)
+  (* one poll of the future, up to the value it returns *)
+  Definition hs_poll_body (fuel : nat) (st : hs_st) (e : E) (s : shim) (t : T) (log : list ev)
+    : R (hres * hs_st * E * shim * T * list ev) :=
+    match st with
+    | HsStart =>
+      (* StartedHandshakeFuture: the first call; Mid => MidHandshake is polled
+         at once, within the same poll of the task *)
+      let! '(r, e1, s1, t1, log1) := api_call fuel e s t log in
+      match r with
+      | EWouldBlock =>
+        let! '(r2, e2, s2, t2, log2) := api_call fuel e1 s1 t1 log1 in
+        hs_after r2 e2 s2 t2 log2
+      | _ => hs_after r e1 s1 t1 log1
+      end
+    | HsMid =>
+      let! '(r, e1, s1, t1, log1) := api_call fuel e s t log in
+      hs_after r e1 s1 t1 log1
+    | HsFlushing =>
+      let! '(h, st1, s1, t1, log1) := hs_finish_flush false s t log in
+      Ok (h, st1, e, s1, t1, log1)
+    | HsDone | HsFailed => Panic P_POLLED_AFTER_COMPLETION
+    end.
+
   Definition hs_poll (fuel : nat) (st : hs_st) (e : E) (s : shim) (t : T) (log : list ev)
     : R (hres * hs_st * E * shim * T * list ev) :=
-    let! '(h, st1, e1, s1, t1, log1) :=
-      match st with
-      | HsStart =>
-        (* StartedHandshakeFuture: the first call; Mid => MidHandshake is polled
-           at once, within the same poll of the task *)
-        let! '(r, e1, s1, t1, log1) := api_call fuel e s t log in
-        match r with
-        | EWouldBlock =>
-          let! '(r2, e2, s2, t2, log2) := api_call fuel e1 s1 t1 log1 in
-          hs_after r2 e2 s2 t2 log2
-        | _ => hs_after r e1 s1 t1 log1
-        end
-      | HsMid =>
-        let! '(r, e1, s1, t1, log1) := api_call fuel e s t log in
-        hs_after r e1 s1 t1 log1
-      | HsFlushing =>
-        let! '(h, st1, s1, t1, log1) := hs_finish_flush false s t log in
-        Ok (h, st1, e, s1, t1, log1)
-      | HsDone | HsFailed => Panic P_POLLED_AFTER_COMPLETION
-      end in
+    let! '(h, st1, e1, s1, t1, log1) := hs_poll_body fuel st e s t log in
     Ok (h, st1, e1, s1, t1, log1 ++ [EvPoll h]).
 
   (* the task: polled again after every wake-up until the future is ready;
@@ -405,103 +408,120 @@ Definition pop_of_ev (e : ev) : list pop :=
 Definition pops_of (log : list ev) : list pop := flat_map pop_of_ev log.
 
 (* ---------------------------------------------------------------------- *)
+(* a toy engine (used to show that the hypotheses about engines can be met):
+   it writes three bytes, flushes, then needs one read to succeed; a callback
+   that would block ends the API call with would-block and is retried on
+   re-entry. *)
+
+Inductive toy := TyStart | TyWrote | TyFlushed | TyReading | TyDone.
+
+Definition toy_eng (e : toy) (inp : option cbret) : toy * eact :=
+  match e, inp with
+  | TyStart, None => (TyWrote, ACall (CbWrite [1; 2; 3]%N))
+  | TyWrote, Some (ROk _) => (TyFlushed, ACall CbFlush)
+  | TyWrote, Some RWouldBlock => (TyStart, AEnd EWouldBlock)
+  | TyFlushed, Some (ROk _) => (TyReading, ACall (CbRead 4))
+  | TyReading, None => (TyReading, ACall (CbRead 4))
+  | TyReading, Some (ROk _) => (TyDone, AEnd EDone)
+  | TyReading, Some RWouldBlock => (TyReading, AEnd EWouldBlock)
+  | TyDone, _ => (TyDone, AEnd EDone)
+  | _, _ => (e, AEnd EFail)
+  end.
+
+(* ---------------------------------------------------------------------- *)
 (* compio-ws: Stream::poll_next and Sink::poll_flush around the protocol
    engine (async-tungstenite's stream) and the transport.  The environment is
-   a schedule of answers, one per call made. *)
+   two schedules of answers: one for the engine's poll_next, one for the flush
+   calls (engine flush and transport flush draw from the same one, in call
+   order).  An exhausted schedule: the stream has ended / the flush succeeds. *)
 
-Inductive wans :=
-| WItem (m : N)      (* inner.poll_next: Ready(Some(item)); m identifies the item *)
-| WEnd               (* inner.poll_next: Ready(None) *)
-| WOk                (* a flush: Ready(Ok(())) *)
-| WPend
-| WErr (k : N).      (* a flush: Ready(Err(k)) *)
+Inductive nans :=
+| NItem (m : N)      (* inner.poll_next: Ready(Some(item)); m identifies the item
+                        (a message or an error of the engine) *)
+| NEnd               (* inner.poll_next: Ready(None) *)
+| NPend.
+Inductive fans := FOk | FPend | FErr (k : N).
 
 Inductive wcall := WcNext | WcFlushEngine | WcFlushTransport.
 
 Inductive wres :=
 | WYield (item : option N)    (* Ready(next_item): Some m / None = end of stream *)
 | WYieldErr (k : N)           (* Ready(Some(Err(k))) from a failed flush *)
-| WPending
-| WBadAnswer.                 (* the schedule does not fit the call (not a run) *)
+| WPending.
 
-Definition wnext (sched : list wans) : wans * list wans :=
-  match sched with [] => (WPend, []) | a :: r => (a, r) end.
+Definition nnext (ns : list nans) : nans * list nans :=
+  match ns with [] => (NEnd, []) | a :: r => (a, r) end.
+Definition fnext (fs : list fans) : fans * list fans :=
+  match fs with [] => (FOk, []) | a :: r => (a, r) end.
 
-(* `loop { if next_item.is_some() { ready!(inner.poll_flush)?; ready!(transport.poll_flush)?;
+(* `ready!(inner.poll_flush(cx))?; ready!(transport.poll_flush(cx))?` *)
+Definition ws_flush2 (fs : list fans) (calls : list wcall) : fans * list fans * list wcall :=
+  let '(a1, r1) := fnext fs in
+  let calls1 := calls ++ [WcFlushEngine] in
+  match a1 with
+  | FOk =>
+    let '(a2, r2) := fnext r1 in
+    (a2, r2, calls1 ++ [WcFlushTransport])
+  | _ => (a1, r1, calls1)
+  end.
+
+(* `loop { if next_item.is_some() { flush engine; flush transport;
             break Ready(next_item.take()) }
-          else { next_item = Some(ready!(inner.poll_next)) } }` *)
-Fixpoint ws_poll_next (fuel : nat) (next_item : option (option N)) (sched : list wans)
-  (calls : list wcall) : wres * option (option N) * list wans * list wcall :=
+          else { next_item = Some(ready!(inner.poll_next)) } }`
+   None as a result = the iteration budget ran out *)
+Fixpoint ws_poll_next (fuel : nat) (next_item : option (option N)) (ns : list nans)
+  (fs : list fans) (calls : list wcall)
+  : option (wres * option (option N) * list nans * list fans * list wcall) :=
   match fuel with
-  | O => (WBadAnswer, next_item, sched, calls)
+  | O => None
   | S f =>
     match next_item with
     | Some item =>
-      let '(a1, r1) := wnext sched in
-      let calls1 := calls ++ [WcFlushEngine] in
-      match a1 with
-      | WOk =>
-        let '(a2, r2) := wnext r1 in
-        let calls2 := calls1 ++ [WcFlushTransport] in
-        match a2 with
-        | WOk => (WYield item, None, r2, calls2)
-        | WPend => (WPending, next_item, r2, calls2)
-        | WErr k => (WYieldErr k, next_item, r2, calls2)
-        | _ => (WBadAnswer, next_item, r2, calls2)
-        end
-      | WPend => (WPending, next_item, r1, calls1)
-      | WErr k => (WYieldErr k, next_item, r1, calls1)
-      | _ => (WBadAnswer, next_item, r1, calls1)
+      match ws_flush2 fs calls with
+      | (FOk, fs1, calls1) => Some (WYield item, None, ns, fs1, calls1)
+      | (FPend, fs1, calls1) => Some (WPending, next_item, ns, fs1, calls1)
+      | (FErr k, fs1, calls1) => Some (WYieldErr k, next_item, ns, fs1, calls1)
       end
     | None =>
-      let '(a, r) := wnext sched in
+      let '(a, ns1) := nnext ns in
       let calls1 := calls ++ [WcNext] in
       match a with
-      | WItem m => ws_poll_next f (Some (Some m)) r calls1
-      | WEnd => ws_poll_next f (Some None) r calls1
-      | WPend => (WPending, None, r, calls1)
-      | _ => (WBadAnswer, None, r, calls1)
+      | NItem m => ws_poll_next f (Some (Some m)) ns1 fs calls1
+      | NEnd => ws_poll_next f (Some None) ns1 fs calls1
+      | NPend => Some (WPending, None, ns1, fs, calls1)
       end
     end
   end.
 
 Definition WS_FUEL : nat := 2.
 
-(* Sink::poll_flush: ready!(inner.poll_flush)?; ready!(transport.poll_flush)? *)
-Definition ws_poll_flush (sched : list wans) (calls : list wcall) : wres * list wans * list wcall :=
-  let '(a1, r1) := wnext sched in
-  let calls1 := calls ++ [WcFlushEngine] in
-  match a1 with
-  | WOk =>
-    let '(a2, r2) := wnext r1 in
-    let calls2 := calls1 ++ [WcFlushTransport] in
-    match a2 with
-    | WOk => (WYield None, r2, calls2)
-    | WPend => (WPending, r2, calls2)
-    | WErr k => (WYieldErr k, r2, calls2)
-    | _ => (WBadAnswer, r2, calls2)
-    end
-  | WPend => (WPending, r1, calls1)
-  | WErr k => (WYieldErr k, r1, calls1)
-  | _ => (WBadAnswer, r1, calls1)
+(* Sink::poll_flush *)
+Definition ws_poll_flush (fs : list fans) (calls : list wcall) : wres * list fans * list wcall :=
+  match ws_flush2 fs calls with
+  | (FOk, fs1, calls1) => (WYield None, fs1, calls1)
+  | (FPend, fs1, calls1) => (WPending, fs1, calls1)
+  | (FErr k, fs1, calls1) => (WYieldErr k, fs1, calls1)
   end.
 
-(* a reader task: poll_next again and again (one poll per wake-up); collects
-   what was handed out.  Structural on the schedule length through [polls]. *)
-Fixpoint ws_reader (polls : nat) (next_item : option (option N)) (sched : list wans)
-  (got : list N) (calls : list wcall) : list N * option (option N) * list wans * list wcall * bool :=
+(* a reader task: poll_next again after every wake-up (and after an error,
+   which it may retry); collects what was handed out; the flag says whether it
+   saw the end of the stream *)
+Fixpoint ws_reader (polls : nat) (next_item : option (option N)) (ns : list nans)
+  (fs : list fans) (got : list N) (calls : list wcall)
+  : list N * option (option N) * list nans * list fans * list wcall * bool :=
   match polls with
-  | O => (got, next_item, sched, calls, false)
+  | O => (got, next_item, ns, fs, calls, false)
   | S p =>
-    match ws_poll_next WS_FUEL next_item sched calls with
-    | (WYield (Some m), ni, r, c) => ws_reader p ni r (got ++ [m]) c
-    | (WYield None, ni, r, c) => (got, ni, r, c, true)     (* end of stream *)
-    | (WYieldErr _, ni, r, c) => ws_reader p ni r got c      (* the caller retries *)
-    | (WPending, ni, r, c) => ws_reader p ni r got c
-    | (WBadAnswer, ni, r, c) => (got, ni, r, c, false)
+    match ws_poll_next WS_FUEL next_item ns fs calls with
+    | None => (got, next_item, ns, fs, calls, false)
+    | Some (WYield (Some m), ni, ns1, fs1, c) => ws_reader p ni ns1 fs1 (got ++ [m]) c
+    | Some (WYield None, ni, ns1, fs1, c) => (got, ni, ns1, fs1, c, true)
+    | Some (_, ni, ns1, fs1, c) => ws_reader p ni ns1 fs1 got c
     end
   end.
 
-(* items the engine produced, in schedule order *)
-Definition witem_of (a : wans) : list N := match a with WItem m => [m] | _ => [] end.
-Definition witems (sched : list wans) : list N := flat_map witem_of sched.
+(* items the engine produces, in schedule order; the item parked in next_item *)
+Definition nitem_of (a : nans) : list N := match a with NItem m => [m] | _ => [] end.
+Definition nitems (ns : list nans) : list N := flat_map nitem_of ns.
+Definition parked (ni : option (option N)) : list N :=
+  match ni with Some (Some m) => [m] | _ => [] end.
